@@ -2,6 +2,8 @@
 import sys
 
 from sa import report, rules_repr as RR2, rules_state as RS, rules_opts as RO
+from sa import rules_extra as RX
+from sa import effects as EFF
 from sa import rules_order as ROR
 
 
@@ -25,6 +27,8 @@ def run(ctx, repo):
     # one object per node, whatever its kind
     ROR.r_construct_cache(ctx, repo)
 
+    EFF.r_global_readonly(ctx, repo)
+    RX.r_no_memo(ctx, repo)
 
 if __name__ == '__main__':
     sys.exit(report.main('C16', 'other', run))
